@@ -468,8 +468,10 @@ def _check(prop, tier, seed, args, t0):
     )
     if meta['level'] != 'proof':
         evidence['coverage']['explanation'] = meta.get('explanation', '')
-    os.makedirs(os.path.join(VERIF, 'evidence'), exist_ok=True)
-    json.dump(evidence, open(os.path.join(VERIF, 'evidence', prop + '.json'), 'w'), indent=1, sort_keys=True)
+    # evidence belongs to /repo itself; a run against another tree (PYVC_REPO: mutants, seeded copies) must not overwrite it
+    evdir = os.path.join(VERIF, 'evidence') if (os.path.realpath(REPO) == '/repo' and not os.environ.get('PYVC_SCRATCH_EVIDENCE')) else os.path.join(VERIF, 'replays', 'evidence-of-other-trees')
+    os.makedirs(evdir, exist_ok=True)
+    json.dump(evidence, open(os.path.join(evdir, prop + '.json'), 'w'), indent=1, sort_keys=True)
     print('%s: %d/%d obligations discharged (%s), %d paths, %d real-code evaluations, %d violations, %d undecided, %.1fs'
           % (prop, n_ok, n_obl, ', '.join('%s:%d' % kv for kv in sorted(solver_count.items())),
              sum(r['paths'] for r in results), evidence['coverage']['evaluations'], len(violations), len(undecided), wall))
